@@ -10,7 +10,9 @@ def saver(resource, db, batch_size):
         batch_size=batch_size
     )
     for _, row in gen:
-        yield row
+        # the row is stored only after this yield returns: pass a copy downstream so that
+        # in-place changes made by later steps do not leak into the duplicate
+        yield copy.deepcopy(row)
 
 
 def loader(db):
